@@ -2,6 +2,7 @@ package c18
 
 import (
 	"fmt"
+	"runtime/debug"
 	"strings"
 	"time"
 
@@ -114,7 +115,14 @@ func opStrings(ops []op) []string {
 // wait for) the case is reported as a hang together with a goroutine dump.
 func runGuarded(budget time.Duration, body func() string) (failure string, hang bool) {
 	res := make(chan string, 1)
-	go func() { res <- body() }()
+	go func() {
+		defer func() {
+			if p := recover(); p != nil {
+				res <- fmt.Sprintf("panic in the controller goroutine (inside a library call): %v\n%s", p, debug.Stack())
+			}
+		}()
+		res <- body()
+	}()
 	select {
 	case f := <-res:
 		return f, false
